@@ -4,6 +4,7 @@
    operation is two components separated by ',' inside any number of outer parentheses. *)
 From Coq Require Import ZArith QArith List Bool Ascii String Reals Lia. Import ListNotations.
 From PV Require Import Num NumR model.Tables model.Parse gen.GenTables proofs.ParseFacts proofs.TablesFacts.
+From PV Require Import gen.GenFns proofs.ParseSource.
 
 Theorem C17_parse_denotes :
   forall (ts1 ts2 : list sterm) (l : list ascii), wf_comp ts1 -> wf_comp ts2 -> rd_op ts1 ts2 l
@@ -60,3 +61,30 @@ Proof.
       apply RCS; [apply (RT (mkT false (CFrac 1 2))); try (repeat constructor)|apply RC0].
     + apply RCS; [apply (RT (mkT false CY)); repeat constructor|apply RC0].
 Qed.
+
+Theorem S_pstep_is_source :
+  forall (NN : Num) (st : pst NN) (c : ascii), pstep NN st c = match gen_pstep NN (r_x NN st)
+    (r_y NN st) (r_sign NN st) (r_const NN st) (r_op NN st) c with | Some (tx, ty, sg, k, op) =>
+    Some {| r_x := tx; r_y := ty; r_sign := sg; r_const := k; r_op := op |} | None => None end.
+Proof. exact pstep_is_source. Qed.
+Print Assumptions S_pstep_is_source.
+
+Theorem S_pinit_is_source :
+  forall NN : Num, pinit NN = {| r_x := n0; r_y := n0; r_sign := fst (gen_pinit NN); r_const :=
+    snd (gen_pinit NN); r_op := None |}.
+Proof. exact pinit_is_source. Qed.
+Print Assumptions S_pinit_is_source.
+
+Theorem S_dims_is_source :
+  forall (NN : Num) (l : list ascii), let comps := split_terminator "," (trim_braces l) in
+    (gen_dims_ok (N.of_nat (Datatypes.length comps)) = true <-> (exists a b : list ascii, comps
+    = [a; b])) /\ (gen_dims_ok (N.of_nat (Datatypes.length comps)) = false -> from_operations_l
+    NN l = PErr).
+Proof. exact dims_is_source. Qed.
+Print Assumptions S_dims_is_source.
+
+Theorem S_components_is_source :
+  forall l : list ascii, gen_components l = split_terminator "," (trim_braces l).
+Proof. exact components_is_source. Qed.
+Print Assumptions S_components_is_source.
+
